@@ -342,3 +342,46 @@ def deviations(toks):
             depth += 1
         elif t in ("')'", "']'", "'}'"):
             depth -= 1
+
+
+# ---- G3: single-token mutants of G2 sentences ("almost valid programs") ---------------------------
+G3_VOCAB = ["'('", "')'", "':'", 'NAME', 'NUMBER', "'='", "','", "'def'", "'if'", 'NEWLINE', 'INDENT', 'DEDENT',
+            "'lambda'", "'*'", "'.'", "'['", "']'", "'in'", "'else'", "'return'", "'yield'", "';'", "'@'", 'STRING',
+            "'async'"]
+
+
+def g3_texts(version, L, shard_no=0, nshards=1, vocab=None, slice_mod=None, slice_eq=0):
+    """every single-token deletion, duplication, replacement and insertion (from a fixed vocabulary) at every
+    position of every G2(L) sentence.  Sentences are dealt to shards by index; texts are de-duplicated within a
+    shard (mutants of two different sentences may coincide across shards)."""
+    import zlib
+    vocab = G3_VOCAB if vocab is None else vocab
+    gen = Generator(version, 'file_input')
+    seen = set()
+    idx = -1
+    for rule, w, tree, toks in gen.sentences(L):
+        if not plausible(toks):
+            continue
+        idx += 1
+        if idx % nshards != shard_no:
+            continue
+        toks = [t for t in toks if t != 'ENDMARKER']
+        n = len(toks)
+        cands = [toks]
+        for i in range(n):
+            cands.append(toks[:i] + toks[i + 1:])
+            cands.append(toks[:i + 1] + [toks[i]] + toks[i + 1:])
+            for v in vocab:
+                if v != toks[i]:
+                    cands.append(toks[:i] + [v] + toks[i + 1:])
+                cands.append(toks[:i] + [v] + toks[i:])
+        for v in vocab:
+            cands.append(toks + [v])
+        for c in cands:
+            t = render(c)
+            if slice_mod and (zlib.crc32(t.encode('utf-8', 'surrogatepass')) // 7919) % slice_mod != slice_eq:
+                continue
+            if t in seen:
+                continue
+            seen.add(t)
+            yield t
